@@ -170,6 +170,7 @@ class Analyzer:
                     self.reads_rng("kernel", f"{c.name}.{fname}", fdef, mi.file)
                     self.kernel_calls(modname, c, fname, fdef, mi.file)
             self.module_imports_rng(mi)
+        self.kernel_stateless()
         for ci in self.optimizers:
             self.module_imports_rng(self.src.modules[ci.module])
         return self.sites
@@ -433,6 +434,27 @@ class Analyzer:
                     ok = cls is not None and cls.name == "OptimizationAbstract" and fname == "_init_agent"
                     self.add("CALLS", "kernel", where, node, ast.unparse(node)[:70], ok, "the only caller of _fcn is _init_agent", file)
 
+    def kernel_stateless(self):
+        """Task and the Variable classes are immutable descriptions: no method other than __init__ writes an attribute of
+        self (no memoisation of derived state that could go stale when the description changes)"""
+        mi = self.src.modules.get("pyvolutionary.models")
+        if not mi:
+            return
+        for c in mi.classes.values():
+            if c.name in ("LabelEncoder", "Population"):
+                continue
+            for fname, fdef in c.methods.items():
+                if fname == "__init__":
+                    continue
+                for node in ast.walk(fdef):
+                    for tgt, kind in _store_targets(node):
+                        p = _root(tgt)
+                        if p[:1] == ["self"] and len(p) >= 2:
+                            self.add("FRAME-kernel", "kernel", f"{c.name}.{fname}", tgt, f"store to {ast.unparse(tgt)}", False,
+                                     "a task / variable method caches state on the object after construction", mi.file)
+                self.add("FRAME-kernel", "kernel", f"{c.name}.{fname}", fdef, f"{c.name}.{fname} writes no attribute of self", True,
+                         "methods of the task / variable description are read-only", mi.file)
+
     # ---- READS-rng ------------------------------------------------------------------------------------------------------------------
     def reads_rng(self, cls, where, fdef, file):
         for node in ast.walk(fdef):
@@ -668,4 +690,5 @@ FAMILY_PROPS = {
     "CTOR": ["C18"],
     "POOL-pure": ["C11"],
     "POP-own": ["C01", "C10", "C15"],
+    "FRAME-kernel": ["C01", "C05", "C14"],
 }
